@@ -160,6 +160,17 @@ func errInfo(v *lisp.LVal) J {
 		return nil
 	}
 	r := J{"cond": v.Str, "panic": lisp.IsInternalPanic(v), "msg": (*lisp.ErrorVal)(v).ErrorMessage()}
+	// the complete text a host prints for the error (location, function name, message) and its trace
+	func() {
+		defer func() { _ = recover() }()
+		r["text"] = (*lisp.ErrorVal)(v).Error()
+		if lisp.IsInternalPanic(v) {
+			return // (a recovered Go panic's trace carries the Go stack dump: goroutine numbers and addresses, by nature)
+		}
+		var tb strings.Builder
+		(*lisp.ErrorVal)(v).WriteTrace(&tb)
+		r["trace"] = tb.String()
+	}()
 	if loc, ok := v.Source(); ok {
 		r["file"] = loc.File
 		r["line"] = loc.Line
